@@ -114,13 +114,31 @@ def run(tier):
     with open(script, "rb") as fin, open(trace, "wb") as fout:
         import subprocess
         p = subprocess.run([exe, drift], stdin=fin, stdout=fout, timeout=600)
-        if p.returncode != 0:
-            raise C.ToolFailure("mrb_replay exited with %d" % p.returncode)
-    drifts = [json.loads(l) for l in open(drift)]
+    crashed = None
+    if p.returncode < 0:
+        # the queue code itself faulted (the driver checks every pointer and size before it touches memory):
+        # keep the events recorded so far, drop a cut line
+        crashed = -p.returncode
+        data = open(trace, "rb").read()
+        cut = data.rfind(b"\n")
+        open(trace, "wb").write(data[:cut + 1] if cut >= 0 else b"")
+    elif p.returncode != 0:
+        raise C.ToolFailure("mrb_replay exited with %d" % p.returncode)
+    drifts = []
+    for l in open(drift):
+        try:
+            drifts.append(json.loads(l))
+        except ValueError:
+            pass            # a line cut by a crash of the code under test
     nev = sum(1 for _ in open(trace))
     ck.log("executed %d events on the real jls_mrb_* (%d graph edges, %d random executions); %d deviations from the design model"
            % (nev, total_edges, nrand, len(drifts)))
 
+    if crashed:
+        cr = os.path.join(sc, "mrb_crash.txt")
+        nlines = sum(1 for _ in open(trace))
+        open(cr, "w").write("jls_mrb_* faulted with signal %d after %d recorded events of the script %s\n" % (crashed, nlines, script))
+        ck.violation({"where": "implementation", "reason": "the queue code crashed (signal %d)" % crashed, "events_before": nlines}, [cr, script])
     v = C.validate_trace("MrbContractTrace", "MrbContractTrace.cfg", trace, timeout=1500)
     ck.log("trace validation: %d/%d events consumed, %d rejection(s)" % (v.consumed, v.total, len(v.rejections)))
     lines = None
